@@ -55,7 +55,8 @@ RandGrid(shape) == [a \in 1..Len(shape) |-> RandChunking(shape[a])]
 LeanChunkings(n) == IF n <= 1 THEN Chunkings(n) ELSE {<<n>>, [j \in 1..n |-> 1], <<1, n - 1>>, <<n - 1, 1>>}
 LeanGrids(shape) == {g \in [1..Len(shape) -> UNION {LeanChunkings(shape[a]) : a \in 1..Len(shape)}] :
                        \A a \in 1..Len(shape) : g[a] \in LeanChunkings(shape[a])}
-PickGrid(shape) == IF Sim THEN {RandGrid(shape)} ELSE IF Lean THEN LeanGrids(shape) ELSE GridsOf(shape)
+\* preset "cre7": every grid even in lean mode (ragged layouts whose odd block sits where no probe looks)
+PickGrid(shape) == IF Sim THEN {RandGrid(shape)} ELSE IF Lean /\ SrcPreset # "cre7" THEN LeanGrids(shape) ELSE GridsOf(shape)
 
 Err == [shape |-> <<>>, data |-> <<>>, kind |-> "err"]
 IsErr(A) == A.kind = "err"
@@ -82,9 +83,10 @@ SrcShapes ==
     [] SrcPreset = "lean"  -> {<<5>>, <<3, 4>>, <<2, 3, 2>>}
     [] SrcPreset = "cre"   -> {<<6>>, <<3, 4>>}
     [] SrcPreset = "cube"  -> {<<2, 2, 2>>}
+    [] SrcPreset = "cre7"  -> {<<7>>}
     \* many blocks along one axis (lean grids include the all-ones grid): scans and reduction trees over 9..33 blocks
     [] SrcPreset = "long"  -> {<<n>> : n \in {9, 13, 16, 17, 25, 32, 33}}
-SrcKinds == CASE SrcPreset \in {"1d", "1d7", "lean", "lean1", "lean2", "lean3", "long"} -> {"i"} [] SrcPreset = "cube" -> {"i", "c"} [] SrcPreset = "rnd" -> {"i", "f"} [] SrcPreset = "red" -> {"i", "b", "n", "m"} [] SrcPreset = "cre" -> {"c"}
+SrcKinds == CASE SrcPreset \in {"1d", "1d7", "lean", "lean1", "lean2", "lean3", "long"} -> {"i"} [] SrcPreset \in {"cube", "cre7"} -> {"i", "c"} [] SrcPreset = "rnd" -> {"i", "f"} [] SrcPreset = "red" -> {"i", "b", "n", "m"} [] SrcPreset = "cre" -> {"c"}
               [] OTHER -> {"i", "f", "b"}
 
 \* source data: distinct small integers (index-mapping errors change values);
@@ -304,6 +306,9 @@ EinsumAct ==
                Push([a |-> "Einsum", x |-> x, y |-> y, pattern |-> "ijk,jk->i"],
                     Reduce("sum", Binary("mul", env[x], env[y]), {2, 3}, FALSE))
 
+\* TLC integers are 32-bit: products only of moderate values (deep simulated programs multiply repeatedly)
+MagOK(A) == \A k \in 1..Len(A.data) : IF A.kind = "f" THEN Abs(A.data[k][1]) <= 1000 /\ Abs(A.data[k][2]) <= 1000
+                                       ELSE IF A.kind = "i" THEN Abs(A.data[k]) <= 30000 ELSE TRUE
 ScalarDom(kind) == IF kind = "f" THEN {<<1, 2>>, <<-3, 2>>, <<2, 1>>} ELSE {-1, 0, 2, 3}
 ArithOps == {"add", "sub", "mul", "maximum", "minimum"}
 OpOK(op, k1, k2) ==
@@ -315,10 +320,12 @@ Elemwise ==
        \/ \E y \in Pick({h \in Live : BroadcastCompatible(env[x].shape, env[h].shape)
                                         /\ SmallEnough(BroadcastShapes(env[x].shape, env[h].shape))}) :
             /\ OpOK(op, env[x].kind, env[y].kind)
+            /\ (op = "mul" => MagOK(env[x]) /\ MagOK(env[y]))
             /\ Push([a |-> "Elemwise", op |-> op, x |-> x, y |-> y, scalar |-> 0, skind |-> "none", swap |-> FALSE],
                     Binary(op, env[x], env[y]))
        \/ \E sk \in Pick(L(NumKinds, {"i"})) : \E sv \in Pick(L(ScalarDom(sk), {2})) : \E sw \in Pick(L({TRUE, FALSE}, {op = "lt"})) :
             /\ OpOK(op, env[x].kind, sk)
+            /\ (op = "mul" => MagOK(env[x]))
             /\ Push([a |-> "Elemwise", op |-> op, x |-> x, y |-> 0, scalar |-> sv, skind |-> sk, swap |-> sw],
                     IF sw THEN Binary(op, Scalar(sv, sk), env[x]) ELSE Binary(op, env[x], Scalar(sv, sk)))
 
@@ -327,6 +334,8 @@ UnaryAct ==
   /\ \E x \in Pick(Live) : \E op \in Pick(L(UnOps, {"negative", "abs"})) :
        /\ (op # "logical_not" => env[x].kind # "b" \/ TRUE)
        /\ (op \in {"negative", "square"} => env[x].kind # "b")
+       \* TLC integers are 32-bit: squares only of moderate values (deep simulated programs square repeatedly)
+       /\ (op = "square" => MagOK(env[x]))
        /\ Push([a |-> "Unary", op |-> op, x |-> x], Unary(op, env[x]))
 
 AsTypeAct ==
